@@ -236,3 +236,28 @@ sum_harness!(c14_summary_n0, 0, 4);
 sum_harness!(c14_summary_n1, 1, 8);
 sum_harness!(c14_summary_n2, 2, 8);
 sum_harness!(c14_summary_n3, 3, 8);
+
+/// Probe: a fully concrete interleaving R(1) R(1) S R(1) O(13) O(13).
+#[kani::proof]
+#[kani::unwind(10)]
+#[kani::stub(alloc::fmt::format, crate::stubs::fmt_format)]
+#[kani::stub(std::hash::RandomState::new, random_state_fixed)]
+fn c14_probe_concrete() {
+    let mut msgs: Vec<Message> = Vec::with_capacity(6);
+    msgs.push(message_unsegmented(header(31, 5_000), radial(1, 0.0, false)));
+    msgs.push(message_unsegmented(header(31, 9_000), radial(1, 1.0, false)));
+    msgs.push(message_unsegmented(header(2, 7_000), status()));
+    msgs.push(message_unsegmented(header(31, 3_000), radial(1, 3.0, false)));
+    msgs.push(message_unsegmented(header(13, 4_000), MessageContents::Other));
+    msgs.push(message_unsegmented(header(13, 4_500), MessageContents::Other));
+    let s = summarize::messages(&msgs);
+    let g = &s.message_groups;
+    assert!(g.len() == 4, "C14: groups");
+    assert!(g[0].start_message_index == 0 && g[0].end_message_index == 1 && g[0].message_count == 2 && !g[0].is_continued);
+    assert!(g[1].start_message_index == 2 && g[1].message_count == 1);
+    assert!(g[2].start_message_index == 3 && g[2].end_message_index == 3 && g[2].is_continued);
+    assert!(g[3].start_message_index == 4 && g[3].end_message_index == 5 && g[3].message_count == 2);
+    wit!(g.len() == 4);
+    core::mem::forget(s);
+    core::mem::forget(msgs);
+}
